@@ -88,7 +88,10 @@ LetCases(op) == IF op \in UnaryFns \cup {"neg"}
                      \cup {ALet("y", AArr(<<AVar("x"), AVar("z")>>), a) : a \in Apply1(op, AVar("y"))}
                 ELSE UNION {{ALet("t", AInfix("*", AVar("y"), AFlt(1, 2)), a) : a \in Apply2(op, AVar("t"), AVar("t"))},
                             {ALet("x", AInt(2), a) : a \in Apply2(op, AVar("x"), AVar("y"))},
-                            {ALet("x", AVar("y"), ALet("y", AVar("z"), a)) : a \in Apply2(op, AVar("x"), AVar("y"))}}
+                            {ALet("x", AVar("y"), ALet("y", AVar("z"), a)) : a \in Apply2(op, AVar("x"), AVar("y"))},
+                            \* the script's own variables win over the built-in mathematical constants of the same name
+                            {ALet("E", AInt(2), a) : a \in Apply2(op, AVar("x"), AVar("E"))},
+                            {ALet("PI", AVar("y"), ALet("TAU", AFlt(1, 2), a)) : a \in Apply2(op, AVar("PI"), AVar("TAU"))}}
 RemapCases == UNION {{ACall("remap", <<t, AVar("y"), AInfix("+", AVar("x"), AInt(1)), AVar("z")>>),
                       ACall("remap", <<t, AVar("y"), AVar("x")>>),
                       ACall("remap", <<t, AInt(1), AVar("x"), AVar("z")>>)}
